@@ -62,7 +62,7 @@ package service
 // arbitrary (other goroutines) up to the lock invariant; atlock(e) is e right after the acquisition.
 //@ type service.Cache
 //@   guards mux :: entries
-//@   lockinv mux :: (forall ck string :: present(self.entries, ck) ==> self.entries[ck].replayMap != nil) && (forall c1 string, c2 string :: present(self.entries, c1) && present(self.entries, c2) && c1 != c2 ==> self.entries[c1].replayMap != self.entries[c2].replayMap)
+//@   lockinv mux :: (forall ck string :: present(self.entries, ck) ==> self.entries[ck].replayMap != nil) && (forall c1 string, c2 string :: present(self.entries, c1) && present(self.entries, c2) && c1 != c2 ==> self.entries[c1].replayMap != self.entries[c2].replayMap) && (forall ck string, k service.replayKey :: rc_has(self, ck, k) ==> self.entries[ck].replayMap[k].cTime == k.cTime)
 
 // the record of one presentation: client name string, authenticator time, service name string
 //@ define rc_key(t, sn) := mk("service.replayKey", t, strjoin(sn.NameString, "/"))
@@ -108,6 +108,13 @@ package service
 //@   modifies entries(c.entries)
 //@   trusted_frame the inner per-client maps are reached through map values; nothing outside the cache is written
 //@   ensures forall ck string, k service.replayKey :: rc_has(c, ck, k) ==> atlock(rc_has(c, ck, k))
+// ... and drops a record only when its authenticator time is more than d before the clock, i.e. when the
+// authenticator can no longer pass the skew check of APReq.Verify (clock is the latest reading of time.Now)
+//@   ensures forall ck string, k service.replayKey :: atlock(rc_has(c, ck, k)) && !rc_has(c, ck, k) ==> clock.Sub(k.cTime) > d
+//@   loop 1 invariant forall ck string, k service.replayKey :: atlock(rc_has(c, ck, k)) && !rc_has(c, ck, k) ==> clock.Sub(k.cTime) > d
+//@   loop 2 invariant forall ck string, k service.replayKey :: atlock(rc_has(c, ck, k)) && !rc_has(c, ck, k) ==> clock.Sub(k.cTime) > d
+//@   loop 1 invariant forall ck string, k service.replayKey :: rc_has(c, ck, k) ==> c.entries[ck].replayMap[k].cTime == k.cTime
+//@   loop 2 invariant forall ck string, k service.replayKey :: rc_has(c, ck, k) ==> c.entries[ck].replayMap[k].cTime == k.cTime
 //@   loop 1 invariant forall ck string, k service.replayKey :: rc_has(c, ck, k) ==> atlock(rc_has(c, ck, k))
 //@   loop 2 invariant forall ck string, k service.replayKey :: rc_has(c, ck, k) ==> atlock(rc_has(c, ck, k))
 //@   loop 1 invariant forall ck string :: present(c.entries, ck) ==> c.entries[ck].replayMap != nil
